@@ -601,11 +601,30 @@ def rule_e(ck, u):
         if p.end != 'loopback' or len(p.loops) < 2:
             continue
         lmap = p.loops[-1][1]
-        kv = {fmt(k): (k, h, pre) for k, (h, pre) in lmap.items()}
-        if 'newi' not in kv or 'mult' not in kv:
+        # by role: the accumulator is the loop variable whose new value contains a digit2int result, the multiplier the
+        # loop variable it is multiplied with; the cursor the one that steps by a constant
+        d2i_ = p.calls('digit2int')
+        acc = [(k, h, pre) for k, (h, pre) in lmap.items() if d2i_ and k[0] == 'v' and sym.contains(sym.mem_read(p.mem, k, h), d2i_[-1].result)]
+        if len(acc) != 1:
             continue
+        kn, hn, pn = acc[0]
+        facs = set()
+        for x in sym.subterms(sym.mem_read(p.mem, kn, hn)):
+            if x[0] == '*' and len(x) == 3:
+                if strip(x[1]) == d2i_[-1].result:
+                    facs.add(strip(x[2]))
+                elif strip(x[2]) == d2i_[-1].result:
+                    facs.add(strip(x[1]))
+        mul = [(k, h, pre) for k, (h, pre) in lmap.items() if k != kn and h in facs]
+        if len(mul) != 1:
+            seen = True
+            bad = "value' = %s, expected value + mult * digit with mult a loop variable (1, base, base^2, ...)" % fmt(sym.mem_read(p.mem, kn, hn))
+            continue
+        km, hm, pm = mul[0]
         seen = True
-        (kn, hn, pn), (km, hm, pm) = kv['newi'], kv['mult']
+        basep = ('v', u.params('parse_integer_')[5]['name']) if len(u.params('parse_integer_')) >= 6 else ('v', 'base')
+        kv = {'j': next(((k, h, pre) for k, (h, pre) in lmap.items() if k not in (kn, km) and k[0] == 'v' and h[0] == 'h'
+                         and (L(strip(sym.mem_read(p.mem, k, h))) - L(h)).is_const() and (L(strip(sym.mem_read(p.mem, k, h))) - L(h)).c != 0), None)}
         if pn != C(0) or pm != C(1):
             bad = 'accumulator/multiplier start at %s/%s (expected 0/1)' % (fmt(pn) if pn else None, fmt(pm) if pm else None)
         n2, m2 = sym.mem_read(p.mem, kn), sym.mem_read(p.mem, km)
@@ -616,7 +635,7 @@ def rule_e(ck, u):
         want_n = ('+', hn, ('*', hm, d2i[-1].result))
         if strip(n2) != want_n and strip(n2) != ('+', hn, ('*', d2i[-1].result, hm)):
             bad = "value' = %s, expected value + mult * digit" % fmt(n2)
-        if strip(m2) not in (('*', hm, ('v', 'base')), ('*', ('v', 'base'), hm)):
+        if strip(m2) not in (('*', hm, basep), ('*', basep, hm)):
             bad = "mult' = %s, expected mult * base" % fmt(m2)
         jk = kv.get('j')
         if jk:
